@@ -183,7 +183,7 @@ impl Engine for C14 {
         let mut t = Trace::new("C14", seed, run);
         let ty = TAGGABLE[rng.below(TAGGABLE.len())];
         let cfg = if rng.chance(1, 8) { GenCfg::medium() } else { GenCfg::small() };
-        let kind = rng.weighted(&[10, 3, 2, 2, 3]);
+        let kind = rng.weighted(&[10, 3, 2, 2, 3, 3]);
         let (body, kname) = match kind {
             0 => (gen_wire(&mut rng, ty, false, &cfg), "valid"),
             1 => {
@@ -203,6 +203,15 @@ impl Engine for C14 {
                 let mut a = it.as_array().cloned().unwrap_or_default();
                 a.push(refcbor::Item::bytes(b"x"));
                 (refcbor::encode(&refcbor::Item::array(a)), "element-added")
+            }
+            5 => {
+                // valid body in a non-canonical encoding (wide heads, indefinite lengths)
+                let it = gen_item(&mut rng, ty, &cfg);
+                let mut out = Vec::new();
+                let widen = rng.range(0, 6) as u32;
+                let indef = rng.range(1, 8) as u32;
+                refcbor::write_item(&it, &mut out, &mut refcbor::Seeded { rng: &mut rng, widen, indef });
+                (out, "non-canonical")
             }
             _ => {
                 let mut b = gen_wire(&mut rng, ty, false, &cfg);
@@ -268,8 +277,19 @@ impl Engine for C14 {
         }
 
         // wire monitor on every accepted value: tagged encoding = registered tag head || untagged encoding
+        let mut monitor_subjects: Vec<(usize, Decoded)> = Vec::new();
         for (i, b) in base.iter().enumerate() {
             if let Some(d) = b {
+                monitor_subjects.push((i, d.clone()));
+                // hand-modified copies: states decoding never produces but the public fields allow
+                for (_what, v) in d.variants() {
+                    monitor_subjects.push((i, v));
+                }
+            }
+        }
+        for (i, d) in &monitor_subjects {
+            let i = *i;
+            {
                 let (bty, reg) = REG_TAGS[i];
                 let uv = guarded(|| d.to_vec());
                 let tv = guarded(|| d.to_tagged_vec());
@@ -285,6 +305,7 @@ impl Engine for C14 {
                             )));
                         }
                     }
+                    (Ok(Err(_)), Ok(Some(Err(_)))) => {}
                     (uv, tv) => {
                         return Ok(Some(Violation::new(
                             "C14.tag-form",
